@@ -373,9 +373,75 @@ def roundtrip_rule(ctx, repo):
             else:
                 ctx.ok({'case': name, 'bytes': len(blob)})
 
+def boundary_rule(ctx, repo):
+    """C20.7 (*fold*): the end-of-frame interrupt rules of rzxplay.process_block, folded on every combination of playback flags (bits 0 and
+    1), last instruction (HALT, LD A,I, LD A,R, EI, another one), length of the next frame and IFF, against the rules as the manual
+    states them: with interrupts enabled an interrupt is accepted at every frame boundary, except - flag bit 1 - after EI when the next
+    frame is short; a halted CPU is stepped past the HALT first; flag bit 0 makes LD A,I / LD A,R at the boundary reset bit 2 of F; each flag
+    acts independently of the other."""
+    ctx.rule('C20.7-frame-boundary', 'end-of-frame interrupt handling of process_block folded on flags x last instruction x next frame length x IFF == the documented rules (each playback flag independent of the other)', floor=100)
+    m = repo.mod('rzxplay')
+    fn = m.funcs.get('process_block')
+    if fn is None:
+        raise FactError('skoolkit/rzxplay.py: process_block not found')
+    node = None
+    for n in ast.walk(fn):
+        if isinstance(n, ast.If) and 'accept_interrupt' in ast.unparse(n) and '118' in ast.unparse(n) and 'registers[26]' in ast.unparse(n.test).replace('IFF', '26'):
+            if node is None or len(ast.unparse(n)) < len(ast.unparse(node)):
+                node = n
+    if node is None:
+        raise FactError('skoolkit/rzxplay.py: end-of-frame interrupt handling in process_block not found')
+    # the flag variables: names assigned from `flags & 1` / `flags & 2`
+    flag_names = {}
+    for n in ast.walk(fn):
+        if isinstance(n, ast.Assign) and isinstance(n.targets[0], ast.Name) and isinstance(n.value, ast.BinOp) and isinstance(n.value.op, ast.BitAnd) and isinstance(n.value.right, ast.Constant) \
+           and 'flags' in ast.unparse(n.value.left):
+            flag_names[n.targets[0].id] = n.value.right.value
+    if sorted(flag_names.values()) != [1, 2]:
+        raise FactError('skoolkit/rzxplay.py: playback flag variables of process_block not recognised (%s)' % flag_names)
+    from sa.core.pyfacts import FuncFold, FOLDED_NONE
+    LAST = {'HALT': [0x76], 'LD A,I': [0xED, 0x57], 'LD A,R': [0xED, 0x5F], 'EI': [0xFB], 'NOP': [0x00], 'ED-prefixed other': [0xED, 0x44]}
+    for flags in range(4):
+        for lname, code in LAST.items():
+            for next_len in (1, 2, 3, 500):
+                for iff in (0, 1):
+                    calls = []
+                    def hook(n, lit):
+                        if isinstance(n, ast.Call) and isinstance(n.func, ast.Name) and n.func.id == 'accept_interrupt':
+                            calls.append(1)
+                            return FOLDED_NONE
+                        return None
+                    hook.wants_lit = True
+                    regs = [0] * 30
+                    pc = 40000
+                    regs[26], regs[1] = iff, 0xFF
+                    regs[24] = pc if lname == 'HALT' else pc + len(code)
+                    mem = [0] * 65536
+                    mem[pc:pc + len(code)] = code
+                    env = {'registers': regs, 'memory': mem, 'pc': pc, 'fetch_counter': next_len}
+                    for nm, bit in flag_names.items():
+                        env[nm] = flags & bit
+                    ff = FuncFold(repo, 'rzxplay', {}, hook)
+                    ff.env = env
+                    try:
+                        ff.stmt(node)
+                    except NotLiteral as e:
+                        ctx.limit('frame boundary', 'not foldable: %s' % e)
+                        continue
+                    want_accept = int(bool(iff) and not (flags & 2 and lname == 'EI' and next_len <= 2))
+                    want_f = 0xFF & (~4 if (iff and flags & 1 and lname in ('LD A,I', 'LD A,R')) else 0xFF)
+                    want_pc = (pc + 1) if (iff and lname == 'HALT') else regs[24] if False else (pc if lname == 'HALT' else pc + len(code))
+                    got = (len(calls), regs[1], regs[24])
+                    if got != (want_accept, want_f, want_pc):
+                        ctx.violation('frame boundary flags %d after %s' % (flags, lname), 'skoolkit/rzxplay.py:%d' % node.lineno,
+                                      'playback flags %d, last instruction %s, next frame of %d fetch(es), IFF=%d: accept_interrupt called %d time(s), F=%02X, PC=%d; the rules give %d, F=%02X, PC=%d' % ((flags, lname, next_len, iff) + got + (want_accept, want_f, want_pc)))
+                    else:
+                        ctx.ok({'flags': flags, 'last': lname} if next_len == 1 and iff else None)
+
 def run(ctx):
     repo = pyfacts.Repo(ctx.repo_root)
     container_rule(ctx, repo)
+    boundary_rule(ctx, repo)
     fetch_rule(ctx, repo)
     roundtrip_rule(ctx, repo)
     from sa.rules import hwstate
